@@ -67,6 +67,17 @@ Theorem C23_unique :
 Proof. exact unique. Qed.
 Print Assumptions C23_unique.
 
+(* an id leaves the live map only by the close / unlink of that channel, or by an OPEN_FAILURE
+   for a local open that is still waiting for its reply (its key is in channel_events) -- no
+   other step, in particular no OPEN_FAILURE / OPEN_SUCCESS naming an established or unknown
+   channel, removes a live entry (whose id could then be handed out again) *)
+Theorem C23_only_close_or_failed_open_removes :
+  forall bits s o s' out x,
+    step bits s o = SOk s' out -> In x (live s) -> ~ In x (live s') ->
+    o = Close x \/ (o = OpenFailure x /\ In x (opening s)).
+Proof. exact removal_causes. Qed.
+Print Assumptions C23_only_close_or_failed_open_removes.
+
 (* why the bound is a hypothesis: with it dropped, uniqueness fails.  2-bit ids, counter
    at 1: three local opens (1, 2, 3), the peer's open reserves 0, ONE local open inside the
    window skips the three live ids, wraps and is given 0 as well; registering the peer's channel
